@@ -631,6 +631,9 @@ pub fn walk(sh: &Shared, root: &Pos, rng: &mut Rng, n_ops: usize, max_depth: usi
     }
     let mut script = ops_script.map(|v| v.into_iter());
     let mut i = 0;
+    // a "dive" (max_depth >= 300): no take-backs until the nesting has reached its peak, so that hundreds of
+    // consecutive take-backs follow - more than any fixed-size undo buffer sized after the search depth holds
+    let mut reached_peak = max_depth < 300;
     loop {
         i += 1;
         // choose the next operation
@@ -662,9 +665,15 @@ pub fn walk(sh: &Shared, root: &Pos, rng: &mut Rng, n_ops: usize, max_depth: usi
                 let legal = rp.legal_moves();
                 let can_null = !rp.in_check(rp.stm) && !frames.last().map(|f| f.was_null).unwrap_or(false) && !legal.is_empty();
                 let depth = frames.len();
+                if !reached_peak && (depth + 10 >= max_depth || legal.is_empty()) {
+                    reached_peak = true;
+                    if depth >= 300 {
+                        l.feat("nesting_ge_300_then_unwound");
+                    }
+                }
                 let w_make = if legal.is_empty() || depth >= max_depth { 0 } else { 55 };
                 let w_null = if can_null && depth < max_depth { 8 } else { 0 };
-                let w_undo = if depth == 0 { 0 } else { 37 };
+                let w_undo = if depth == 0 { 0 } else if !reached_peak { 0 } else if max_depth >= 300 { 200 } else { 37 };
                 if w_make + w_null + w_undo == 0 {
                     break;
                 }
@@ -989,8 +998,13 @@ pub fn run(prop: Prop, args: &Args, seed: u64, tier: &str, report: &Report) -> S
                 root.fmn = *rng.pick(&[127u32, 128, 255, 256, 32_767, 32_768, 65_535, 65_536, 1_000_000]);
                 l.feat("root_with_large_move_number");
             }
-            let n_ops = *rng.pick(&[50usize, 100, 200, 400]);
-            let max_depth = *rng.pick(&[6usize, 12, 24, 40]);
+            let mut n_ops = *rng.pick(&[50usize, 100, 200, 400]);
+            let mut max_depth = *rng.pick(&[6usize, 12, 24, 40]);
+            if w % 24 == 7 {
+                // a dive: 300..700 plies of nesting, then everything is taken back
+                max_depth = 300 + rng.below(400) as usize;
+                n_ops = max_depth + 150;
+            }
             if prop == Prop::C03 && w % 4 == 0 {
                 transposition_pairs(&sh, &root, &mut rng, &mut l);
             }
@@ -1000,6 +1014,35 @@ pub fn run(prop: Prop, args: &Args, seed: u64, tier: &str, report: &Report) -> S
             }
             if report.violations_total() > 200 {
                 break;
+            }
+        }
+        // C03 at the reader: whatever Game the FEN reader hands out carries the key that a computation from scratch
+        // gives for it - also for texts whose castling or en-passant field does not fit the placement (rights without
+        // the rook or king at home, a target nobody can capture on). Root only: no move is played from such texts.
+        if prop == Prop::C03 {
+            let fields = ["KQkq", "K", "Q", "k", "q", "Kq", "Qk", "KQ", "kq", "-"];
+            for i in 0..(walks / 16).max(50) {
+                let base = if i % 2 == 0 { rng.pick(&roots).clone() } else { match synth(&mut rng, &SynthCfg { max_extra: 12, wild: false, focus: false, castling: true }) { Some(p) => p, None => continue } };
+                let fen = base.to_fen(EpConv::Always);
+                let mut f: Vec<String> = fen.split(' ').map(|x| x.to_string()).collect();
+                f[2] = rng.pick(&fields).to_string();
+                if rng.chance(1, 3) {
+                    let file = (b'a' + rng.below(8) as u8) as char;
+                    f[3] = format!("{file}{}", if f[1] == "w" { 6 } else { 3 });
+                }
+                let text = f.join(" ");
+                l.evaluations += 1;
+                match guarded(|| Game::from_fen(&text)) {
+                    Ok(Ok(g)) => {
+                        l.feat("reader_accepted_texts_with_unfitting_fields");
+                        let scratch = guarded(|| zobrist::hash(&g).0);
+                        if scratch.as_ref().ok() != Some(&g.zobrist.0) {
+                            report.violation(Violation { monitor: "c03".into(), signature: "c03.reader.key-not-from-scratch".into(), what: format!("the Game read from '{text}' carries key {:x}, a computation from scratch gives {:x?} (it writes itself as '{}')", g.zobrist.0, scratch.ok(), g.to_fen()), replay_args: vec![], detail: J::Null });
+                        }
+                    }
+                    Ok(Err(_)) => l.feat("reader_rejected_texts_with_unfitting_fields"),
+                    Err(_) => l.feat("reader_panicked_not_judged_here"),
+                }
             }
         }
         // thorough: every legal move (and the null move where a search may make one) of every legal
